@@ -16,6 +16,9 @@ CHECKS = {
  'C10': ('treedec', 'TLC enumerates all graphs (MC_TreeDec; R3: DP treewidth = min over all elimination orders) -> tree_decomposition x 3 methods, min_fill, minor_min_width, quickbb -> TLC judges validity and optimality by definition (Trace_TreeDec)',
          'Exhaustive over every labelled simple graph on <=5 (quick) / <=6 (thorough) vertices in two vertex insertion orders, structured graphs (cliques, paths, cycles, stars, grids) and seeded graphs on 7-9 vertices; TLC decides tree-ness, coverage, running intersection and computes the treewidth by subset DP, itself cross-checked against all elimination orders (R3).',
          'Trusted: TLC, TreeDec.tla (definition of tree decomposition, treewidth DP), the driver that converts the returned dict of frozensets into bags/edges. Empty graph: only validity (width conventions differ).', 'DESIGN.md#c10'),
+ 'C15': ('derive', 'seeded derivation trees -> TLC enumerates EVERY linearisation (Derive!DvLinearisations) -> start_graph/replace_edge replayed on real graphs along each, FGGDerivation.derive() on the same tree -> TLC judge (Trace_Derive): per-step replacement post-condition, final graph = the graph derived by definition under canonical naming',
+         'All linearisations (schedules) of each of 140 (quick) / 1500 (thorough) seeded derivation trees with <=4 / <=5 rule instances (complete and partial, recursive grammars, nullary/repeated attachments, arity-0..2 nonterminals); every replace_edge step is judged against the replacement post-condition, every final graph against Derive.tla; derive() is judged for graph, totality of the assignment and product weight; wrong-type replacements must raise and leave the graph unchanged.',
+         'Trusted: TLC, Derive.tla, the canonical naming done by the driver from the returned node_map/edge_map. Replacement graphs have distinct external nodes; tree size is bounded.', 'DESIGN.md#c15'),
  'C16': ('graphs-machine', 'TLC explores the Graphs heap machine (MC_Graph, MC_HRG: every mutator incl. failing calls; R3 invariants) and dumps every transition -> replayed on real Graph/HRG/FGG objects -> TLC trace judge (Trace_Graphs) checks well-formedness preserved, failure atomicity, copy equality/independence, == soundness',
          'Exhaustive TRANSITION coverage of the bounded heap machine to call depth 3 (quick) / 4 (thorough) over a universe with id/label/type clashes, plus -simulate behaviours of depth 10-14; every observed call is judged by TLC on projections taken through public accessors only; the descriptive model is compared for drift (non-gating) and itself model-checked against the clauses (R3).',
          'Trusted: TLC, Graphs.tla normative predicates, the projection code in harness/graphsdrv.py. Universe is small (3-4 node values, 5-6 edge labels, 2 edge ids, 5 rule right-hand sides). A rule sharing its right-hand side Graph with the caller is a recorded finding (known_findings.json).', 'DESIGN.md#c16'),
